@@ -292,3 +292,8 @@ def run(rep, prog, thorough):
     # a hex dump stands for the payload only if it shows every byte (rule shared with C16)
     from .c16 import check_hexdump_lines
     check_hexdump_lines(rep, prog, "C04.R1.payload-never-dropped", thorough)
+    # UserData / ExtUserData.toJSON show "Created by" through getDisplayCompID before the payload is rendered: a component id
+    # it cannot turn into text (an exception) loses the payload - the function is evaluated for every creator class and a
+    # boundary set of component ids (rule shared with C02)
+    from .c02 import check_getDisplayCompID
+    check_getDisplayCompID(rep, prog, "C04.R1.payload-never-dropped")
